@@ -330,7 +330,17 @@ class Val16(Structure):
     y = Member("B")
 
 
-STRUCTS = [(Key4, Val8), (Key6, Val16)]
+class Key12(Structure):
+    a = Member("q")
+    b = Member("I")
+
+
+class Val2(Structure):
+    v = Member("H")
+
+
+# the third pair has a key larger than its value: sizes must not be confused
+STRUCTS = [(Key4, Val8), (Key6, Val16), (Key12, Val2)]
 
 
 def dict_inv(d):
@@ -340,9 +350,17 @@ def dict_inv(d):
 
 
 def thedict(K, V):
+    """a TheDict as its real __init__ leaves it: the fields the contracts
+    speak about are symbolic; any further plain attribute the real constructor
+    computes (a cached size, a flag) is taken from a real instance"""
+    import types
+    ht = types.SimpleNamespace(Key=K, Value=V, key_offset=0, value_offset=0)
+    proto = TheDict(ht, None, 5)
+    extra = {k: T.Const(v) for k, v in vars(proto).items()
+             if k not in ("fd", "key", "value", "ebpf") and isinstance(v, (int, str, bytes, bool, float, type(None)))}
     return T.Obj(TheDict, fd=T.Range(0, 1 << 20),
                  key=T.Obj(K, data=T.Const(None), addr_offset=T.Int),
-                 value=T.Obj(V, data=T.Const(None), addr_offset=T.Int))
+                 value=T.Obj(V, data=T.Const(None), addr_offset=T.Int), **extra)
 
 
 def struct_inv(s):
